@@ -70,6 +70,9 @@ def candidates(rng, n):
     # the inner value of the catch-all only has to be From<&str> (and Clone for the table): Rc<str> is neither Send nor Sync
     base.append(enum(0, [variant("Red"), variant("Blue", ser=["b", "blue"], aci=1), variant("Other", "tuple", [field("rcstr")], default=True)]))
     base.append(enum(0, [variant("Other", "named", [field("rcstr", "text")], default=True), variant("Red")]))
+    # an enum NAMED like an item the generated lookup mentions
+    base.append(enum(0, [variant("Hash"), variant("Tree", ser=["t", "tree"], aci=1), variant("Off", dis=True)], fixed_name="Map"))
+    base.append(enum(0, [variant("Get"), variant("Entry")], fixed_name="PHF"))
     for E in SC.dictionary(1):
         base.append(fieldless(copy.deepcopy(E)))
     for k in range(n):
@@ -78,7 +81,8 @@ def candidates(rng, n):
     for E in base:
         for phf in (False, True):
             E2 = copy.deepcopy(E)
-            E2["id"], E2["name"], E2["phf"], E2["perr"] = did, "E%d" % did, phf, False
+            E2["id"], E2["name"], E2["phf"], E2["perr"] = did, E.get("fixed_name") or ("E%d" % did), phf, False
+            E2["namecp"] = core.cp(E2["name"])
             if phf:
                 E2["twin_of"] = did - 1
             cands.append(E2)
